@@ -939,6 +939,11 @@ func runC03(c *Ctx) {
 	c.Rule("R10")
 	c04R2(c)
 
+	// R12 optimistic provide starts one put per peer: the completion channel is closed after as
+	// many signals as peers were scheduled, a second put for a peer sends on the closed channel — C06.R7
+	c.Rule("R12")
+	c.Share("C06", "R7")
+
 	// R11 watcher context lives until the function returns
 	c.Rule("R11")
 	{
